@@ -26,7 +26,9 @@ abbrev Triplet := Nat × Nat × Nat
 
 inductive Ev
   | def_ (header arch mesgNum : Nat) (fields devFields : List Triplet)
-  | msg (header mesgNum nFields nDevFields : Nat)
+  /-- a decoded message: header byte, global number, number of fields and of developer fields in it, and the bytes of
+  every field (by number) and developer field (number, developer data index) as handed to the value decoder -/
+  | msg (header mesgNum nFields nDevFields : Nat) (payload : List (Nat × Bytes)) (devPayload : List (Nat × Nat × Bytes))
   | seq (size protoVer profileVer dataSize hdrCrc fileCrc nMsgs : Nat)
   deriving DecidableEq, Repr, Inhabited
 
@@ -147,29 +149,31 @@ def definition (chk : Bool) (header : Nat) (st : St) (k : St → P) : P :=
                     evs := .def_ header arch mesgNum fields [] :: st.evs }
 
 /-- `decodeFields`, framing part: a field of size 0 is skipped, every other one is one `readN(size)`; collects the
-first byte of every field read, by field number (what `mesgdef.NewFieldDescription` looks at) -/
-def fields (chk : Bool) : List Triplet → St → List (Nat × Nat) → (St → List (Nat × Nat) → P) → P
+bytes of every field read, by field number -/
+def fields (chk : Bool) : List Triplet → St → List (Nat × Bytes) → (St → List (Nat × Bytes) → P) → P
   | [], st, acc, k => k st acc
   | (num, size, _) :: fs, st, acc, k =>
     if size = 0 then fields chk fs st acc k
-    else rdN chk size st fun b st => fields chk fs st (acc ++ [(num, b.headD 0)]) k
+    else rdN chk size st fun b st => fields chk fs st (acc ++ [(num, b)]) k
 
-/-- `vals[num].Uint8()` of `FieldDescription.Reset`: the value of the LAST field with that number, 255 if none -/
-def lastVal (vals : List (Nat × Nat)) (num : Nat) : Nat :=
+/-- `vals[num].Uint8()` of `FieldDescription.Reset`: the first byte (what `mesgdef.NewFieldDescription` looks at) of the
+LAST field with that number, 255 if none -/
+def lastVal (vals : List (Nat × Bytes)) (num : Nat) : Nat :=
   match (vals.filter fun p => p.1 = num).getLast? with
-  | some p => p.2
+  | some p => p.2.headD 0
   | none => uint8Invalid
 
-/-- `decodeDeveloperFields`, framing part; counts the developer fields that end up in the message -/
-def devFields (chk : Bool) (descs : List Triplet) : List Triplet → St → Nat → (St → Nat → P) → P
-  | [], st, cnt, k => k st cnt
-  | (num, size, ddi) :: fs, st, cnt, k =>
+/-- `decodeDeveloperFields`, framing part; collects the developer fields that end up in the message (number, developer
+data index, bytes) -/
+def devFields (chk : Bool) (descs : List Triplet) : List Triplet → St → List (Nat × Nat × Bytes) → (St → List (Nat × Nat × Bytes) → P) → P
+  | [], st, acc, k => k st acc
+  | (num, size, ddi) :: fs, st, acc, k =>
     match descs.find? fun d => d.1 = ddi ∧ d.2.1 = num with
-    | none => rdN chk size st fun _ st => devFields chk descs fs st cnt k       -- "just read acquired bytes"
+    | none => rdN chk size st fun _ st => devFields chk descs fs st acc k       -- "just read acquired bytes"
     | some d =>
       if !validBaseType d.2.2 then .ret (fail st .invalidBaseType)
-      else if size = 0 then devFields chk descs fs st cnt k
-      else rdN chk size st fun _ st => devFields chk descs fs st (cnt + 1) k
+      else if size = 0 then devFields chk descs fs st acc k
+      else rdN chk size st fun b st => devFields chk descs fs st (acc ++ [(num, ddi, b)]) k
 
 /-- `decodeMessageData` (the header byte has been read) -/
 def data (chk : Bool) (header : Nat) (st : St) (k : St → P) : P :=
@@ -184,9 +188,9 @@ def data (chk : Bool) (header : Nat) (st : St) (k : St → P) : P :=
         else st.descs
       let st := { st with descs := descs }
       -- `if len(mesgDef.DeveloperFieldDefinitions) != 0 { decodeDeveloperFields }` (the same thing for an empty list)
-      devFields chk descs d.devFields st 0 fun st nd =>
+      devFields chk descs d.devFields st [] fun st devs =>
         k { st with msgs := st.msgs + 1,
-                    evs := .msg header d.mesgNum (vals.length + (if compressed then 1 else 0)) nd :: st.evs }
+                    evs := .msg header d.mesgNum (vals.length + (if compressed then 1 else 0)) devs.length vals devs :: st.evs }
 
 /-- `decodeMessage` -/
 def message (chk : Bool) (st : St) (k : St → P) : P :=
